@@ -54,9 +54,26 @@ def g11(pid, tier, replay):
                 "attribute lists; every read-only / value-returning public operation incl. the three serializers; ALL "
                 "registers are snapshotted before and after every call; distinct by (operation, operands)",
         "assumptions": ASSUME_GRAPH + ["the concurrency clause (no data race between read-only operations) is decided by the "
-                                       "-race runs of ./check C11's schedule part"],
+                                       "-race stage of this check (concurrent_read_only in the coverage)"],
     }
-    return graph.run_graph(pid, tier, plan, replay)
+    rc = graph.run_graph(pid, tier, plan, replay)
+    if replay:
+        return rc
+
+    def prepare(scratch, plan2, vh):
+        plan2["jobs"] = conc_jobs("readonly", tier, 6)
+
+    plan2 = {
+        "module": "TraceConc", "cfg": "TraceConc.cfg", "own": r"^conc\.readonly\..*$", "jobs": [], "prepare": prepare,
+        "merge_into_existing": "concurrent_read_only", "replay_cmd": lambda path: None,
+        "result_keys": (), "nontrivial": lambda e: e.get("op") == "RO",
+        "rule": "four free-running goroutines each perform six seeded read-only / value-returning operations (both operand "
+                "orders) on ONE shared pair of richly populated node lists in a -race build; a race report or runtime abort "
+                "is an event no specification action accepts",
+        "assumptions": ["the race detector reports only real unsynchronised conflicting accesses; absence of a report is not a proof"],
+    }
+    rc2 = simple.run_simple(pid, tier, plan2, None)
+    return max(rc, rc2)
 
 
 def g12(pid, tier, replay):
@@ -362,4 +379,34 @@ def c06(pid, tier, replay):
     return simple.run_simple(pid, tier, plan, replay)
 
 
-CHECKS = {"C05": c05, "C06": c06, "C04": c04, "C07": c07, "C01": c01, "C02": c02, "C03": c03, "C19": c19, "C20": c20, "C18": c18, "C13": n13, "C14": n13, "C08": g08, "C09": g09, "C10": g09, "C11": g11, "C12": g12, "C15": g15, "C16": g16}
+def conc_jobs(mode, tier, nshards):
+    from common import build_harness as _bh
+    racebin = _bh(race=True)
+    n = 40 if tier == Q else 400
+    return [{"cmd": ["conc-run", "--racebin", racebin, "--mode", mode, "--n", str(n), "--seed", str(seed() * 100 + i)],
+             "label": "%s-%d" % (mode, i)} for i in range(nshards)]
+
+
+def c17(pid, tier, replay):
+    def prepare(scratch, plan, vh):
+        plan["jobs"] = conc_jobs("registry", tier, 10)
+
+    plan = {
+        "module": "TraceConc", "cfg": "TraceConc.cfg", "own": r"^conc\.(?!readonly|hook-missing).*$", "infra": r"^conc\.hook-missing$",
+        "design": [("Registry", "Registry_locked.cfg", 900)], "jobs": [], "prepare": prepare,
+        "replay_cmd": lambda path: ["conc-run", "--racebin", __import__("common").build_harness(race=True), "--n", "40"],
+        "result_keys": (), "nontrivial": lambda e: e.get("op") == "HIST",
+        "rule": "seeded concurrent histories: 2-4 goroutines x 2-4 calls each over register / unregister / lookup of reader "
+                "and writer drivers (two formats, fake drivers that reveal who served), parsing with the looked-up driver, "
+                "tag-value format detection, and construction + use of readers and writers with options on independent "
+                "documents; run in a -race build with the verif hooks on; every call is stamped at invocation and return "
+                "from one atomic clock and the reader-registry hook stamps the linearization point inside the critical "
+                "section; race reports and runtime aborts of the run are events",
+        "assumptions": ["the race detector reports only real unsynchronised conflicting accesses; absence of a report is not a proof",
+                        "goroutines start together behind a barrier but are otherwise free-running (no gates: gates would add "
+                        "happens-before edges and hide races)"],
+    }
+    return simple.run_simple(pid, tier, plan, replay)
+
+
+CHECKS = {"C17": c17, "C05": c05, "C06": c06, "C04": c04, "C07": c07, "C01": c01, "C02": c02, "C03": c03, "C19": c19, "C20": c20, "C18": c18, "C13": n13, "C14": n13, "C08": g08, "C09": g09, "C10": g09, "C11": g11, "C12": g12, "C15": g15, "C16": g16}
